@@ -62,6 +62,10 @@ package dir
 //@   ghostexit emptychecked = store(emptychecked, dip.Inum, result)
 //@   ensures [ibits-same] abits[theIalloc] == old(abits)[theIalloc] @C05
 //@   ensures dirDone(dip, op) && dip.Size == old(dip.Size) && dip.Kind == 2
+// I5 (C04, C05, C02): "empty" is answered only after every slot behind "." and ".." has been looked at and found free
+// (dslot[d][o]: inode number in the slot at offset o, tied to the bytes by the assumed I4-dirslots of inode.Read)
+//@   ensures [I5-scanned-all] result ==> (forall o uint64 :: 256 <= o && o < dip.Size && o & 127 == 0 ==> dslot[dip.Inum][o] == 0) @C04 @C05 @C02
+//@   loop 0 invariant [scanned] (forall o uint64 :: 256 <= o && o < off && o & 127 == 0 ==> dslot[dip.Inum][o] == 0)
 //@   assumes [S3-empty] result ==> (forall n string :: dnames[dip.Inum][n] != 0 ==> (len(n) == 1 && n[0] == 46) || (len(n) == 2 && n[0] == 46 && n[1] == 46))
 //@   loop 0 invariant off & 127 == 0 && off >= 256 && dip.Size == old(dip.Size) && dip.Kind == 2 && inodeInv(dip) && dirShape(dip) && opOpen(op) && dirtyInv() && allocInv() && (!dirtyinum[dip.Inum] || old(dirtyinum)[dip.Inum]) && othersClean(dip) && listsStable(op.Atxn)
 //@   loop 0 decreases dip.Size - off
